@@ -117,6 +117,11 @@ func pySizeSuffix(mods ...*gopygen.PyModule) string {
 			return "@case-with-module-over-31-lexer-events"
 		}
 	}
+	for _, m := range mods {
+		if m.CRLF {
+			return "@case-with-CRLF-module"
+		}
+	}
 	return ""
 }
 
@@ -366,12 +371,21 @@ func (c *gpChecker) goParams(fn *gopygen.GoFunc, node *GPFunction, what string) 
 }
 
 func (c *gpChecker) goCalls(f *gopygen.GoFile, fn *gopygen.GoFunc, node *GPFunction, v gpGoView, what string) {
-	for _, s := range fn.Body {
+	for _, s := range fn.AllStmts() { // including the call statements written inside callbacks
 		switch s.Kind {
 		case gopygen.StCallPkg, gopygen.StCallRecv:
 			kind := "pkg"
 			if s.Kind == gopygen.StCallRecv {
 				kind = "recv"
+			}
+			ksfx := "/" + kind
+			if s.InCallback {
+				ksfx += "/inside-function-literal-argument"
+				c.st.Info["go_call_statements_inside_callbacks"]++
+			}
+			stext := s.Text
+			if i := strings.Index(stext, "\n"); i > 0 {
+				stext = stext[:i] + " … })"
 			}
 			n := 0
 			var hit GPCall
@@ -381,7 +395,7 @@ func (c *gpChecker) goCalls(f *gopygen.GoFile, fn *gopygen.GoFunc, node *GPFunct
 					hit = call
 				}
 			}
-			if c.once("go_call_"+kind, n, "go/call", "/"+kind, fmt.Sprintf("call statement `%s` of %s", s.Text, what)) {
+			if c.once("go_call_"+kind, n, "go/call", ksfx, fmt.Sprintf("call statement `%s` of %s", stext, what)) {
 				ok := hit.NodeName == s.Qual
 				if !ok && kind == "recv" && fn.Recv != nil && hit.NodeName == fn.Recv.Type {
 					ok = true // resolved to the receiver's type: still its own name
@@ -394,7 +408,7 @@ func (c *gpChecker) goCalls(f *gopygen.GoFile, fn *gopygen.GoFunc, node *GPFunct
 					}
 				}
 				if !ok {
-					c.bad("go/call-qualifier/"+kind, "call statement `%s` of %s is listed with qualifier %q", s.Text, what, hit.NodeName)
+					c.bad("go/call-qualifier/"+kind, "call statement `%s` of %s is listed with qualifier %q", stext, what, hit.NodeName)
 				}
 			}
 			// own owner: the callee name must not show up in any other function of the file
@@ -417,7 +431,7 @@ func (c *gpChecker) goCalls(f *gopygen.GoFile, fn *gopygen.GoFunc, node *GPFunct
 				count(v.types[i].Functions, v.types[i].NodeName)
 			}
 			if other > 0 {
-				c.bad("go/call-in-other-function/"+kind, "call statement `%s` of %s is also listed in %d other function(s)", s.Text, what, other)
+				c.bad("go/call-in-other-function/"+kind, "call statement `%s` of %s is also listed in %d other function(s)", stext, what, other)
 			}
 		case gopygen.StDefer:
 			for _, call := range node.FunctionCalls {
@@ -702,7 +716,7 @@ func CheckGoFlat(where string, files []*gopygen.GoFile, ds []GPDataStruct) ([]GP
 		}
 		for _, fn := range f.Funcs() {
 			p := gpPlanted{ptr: fn}
-			for _, s := range fn.Body {
+			for _, s := range fn.AllStmts() {
 				if s.Kind == gopygen.StCallPkg || s.Kind == gopygen.StCallRecv {
 					p.members = append(p.members, s.Func)
 				}
